@@ -135,6 +135,9 @@ pub struct Model {
     /// some call since mount changed FAT / entry set / size / data (C12)
     pub changed_since_mount: bool,
     pub mounts: u32,
+    /// number of file handles opened so far (a new handle starts with this write generation: the first in-place
+    /// write through a re-opened handle then differs from the bytes that are already there)
+    pub opens: u32,
 }
 
 #[derive(Debug, Clone, PartialEq, Eq)]
@@ -174,6 +177,7 @@ impl Model {
             unicode,
             changed_since_mount: false,
             mounts: 0,
+            opens: 0,
         }
     }
 
